@@ -109,6 +109,9 @@ type Monitors struct {
 	Injecting       bool                      // the harness itself is re-delivering a schedule request
 	// JobConfigs (uid) for which a start write was applied but reported as a timeout to the queue controller
 	timedOutStart map[string]bool
+	// staleTombstone: JobConfig uid -> this process was told about the disappearance of a Job it had started
+	// (and counted) through a relist tombstone whose last known state is still the unstarted Job
+	staleTombstone map[string]bool
 	// non-triviality measures
 	Retries          int
 	MultiAttemptJobs int
@@ -286,7 +289,30 @@ func (m *Monitors) timedOutSuffix(jcuid string) string {
 	if m.timedOutStart[jcuid] {
 		return ":after-timed-out-start-write"
 	}
+	if m.staleTombstone[jcuid] {
+		return ":after-stale-tombstone"
+	}
 	return ""
+}
+
+// onTombstone is told about every object a relist found to have disappeared, with the cache's last copy of it.
+func (m *Monitors) onTombstone(kind Kind, cached interface{}) {
+	j, ok := cached.(*execution.Job)
+	if kind != KJob || !ok {
+		return
+	}
+	jr := m.jobs[string(j.UID)]
+	if jr == nil || jr.JCUID == "" {
+		return
+	}
+	m.Evals["job_tombstones"]++
+	if j.Status.StartTime.IsZero() && !jr.StartedAt.IsZero() {
+		if m.staleTombstone == nil {
+			m.staleTombstone = map[string]bool{}
+		}
+		m.staleTombstone[jr.JCUID] = true
+		m.Evals["job_tombstones_with_unstarted_copy_of_started_job"]++
+	}
 }
 
 // TraceHash identifies the abstract trace (actors, verbs, kinds and state classes with names and times erased).
@@ -305,6 +331,7 @@ func ownerJobUID(p *corev1.Pod) string {
 // moment: C04 forbids a later schedule request at or before the recorded last schedule time, and
 // any back-scheduling of a JobConfig that was never scheduled.
 func (m *Monitors) onBoot(inc *Incarnation) {
+	m.staleTombstone = nil // the new process rebuilds its counters from the API
 	if m.bootSnap == nil {
 		m.bootSnap = map[int]map[string]bootJC{}
 	}
@@ -892,6 +919,12 @@ func (m *Monitors) podDeleted(c *Call, p *corev1.Pod) {
 		}
 		if notRunning {
 			reasons = append(reasons, "pending-timeout")
+			if rec.EverRunning {
+				// justified by what the reconcile read, not by what was true: the Pod had begun running (or had
+				// even finished) but the copy the controller works with is older than that. Everything judged
+				// against the true outcomes of this Job's tasks afterwards follows from this.
+				m.fail("C12", "pending-reap-of-running-task:stale-pod-view", "task %s was deleted for exceeding the pending timeout of %v on a copy of the Pod that had not begun running, although the Pod had begun running at the apiserver (created %v)", p.Name, pt, p.CreationTimestamp.Sub(Epoch))
+			}
 		}
 	}
 	// J2 kill
@@ -908,8 +941,38 @@ func (m *Monitors) podDeleted(c *Call, p *corev1.Pod) {
 	}
 	if len(reasons) == 0 {
 		why := "kill=" + tsString(vj.Spec.KillTimestamp)
-		m.fail("C12", "unjustified-delete", "controller deleted task %s without justification (pending timeout %v, created %v, everRunning=%v, %s)", p.Name, pt, p.CreationTimestamp.Sub(Epoch), rec.EverRunning, why)
+		sig := "unjustified-delete"
+		if m.regressedTaskView(t, j) {
+			sig += ":pod-cache-behind-status" // this very sync is about to record a terminated task as unfinished again
+		}
+		m.fail("C12", sig, "controller deleted task %s without justification (pending timeout %v, created %v, everRunning=%v, %s)", p.Name, pt, p.CreationTimestamp.Sub(Epoch), rec.EverRunning, why)
 	}
+}
+
+// regressedTaskView reports whether the reconcile t works with a copy of some task of Job j (as the API has
+// it now) that is older than the terminal state the Job's status already records for that task.
+func (m *Monitors) regressedTaskView(t *Task, j *execution.Job) bool {
+	if m.w.Inc == nil {
+		return false
+	}
+	for _, ref := range j.Status.Tasks {
+		if ref.Status.State != execution.TaskTerminated {
+			continue
+		}
+		cp, _ := viewPod(t, j.Namespace, ref.Name)
+		if cp == nil {
+			if o, ok, _ := m.w.Inc.Ctx.Inf.Pod.Raw().GetByKey(j.Namespace + "/" + ref.Name); ok {
+				cp = o.(*corev1.Pod)
+			}
+		}
+		if cp == nil || cp.Status.Phase == corev1.PodSucceeded || cp.Status.Phase == corev1.PodFailed {
+			continue
+		}
+		if cur, _ := m.w.API.peek(KPod)[key(j.Namespace, ref.Name)].(*corev1.Pod); cur == nil || cur.ResourceVersion != cp.ResourceVersion {
+			return true
+		}
+	}
+	return false
 }
 
 func tsString(t *metav1.Time) string {
@@ -1041,6 +1104,40 @@ func (m *Monitors) onJob(ev *Event) {
 		m.MaxVersions = jr.Versions
 	}
 	old := ev.Old.(*execution.Job)
+	if ev.Type == Modified && isCtrl(ev.Actor) {
+		// C11: a task recorded as terminated does not go back to an unfinished state. Judged before everything
+		// else about this write: what follows from a regressed task (a finished Job that changes its result or
+		// becomes unfinished again, further tasks, siblings stopped) is a consequence, not a second defect.
+		for _, ot := range old.Status.Tasks {
+			if ot.Status.State != execution.TaskTerminated {
+				continue
+			}
+			for _, nt := range j.Status.Tasks {
+				if nt.Name != ot.Name || nt.Status.State == execution.TaskTerminated || nt.Status.State == execution.TaskDeletedFinalStateUnknown {
+					continue
+				}
+				sig := "task-status-regressed"
+				if m.w.Inc != nil {
+					// the copy of the Pod this reconcile read (else: what its cache holds now)
+					cp, _ := viewPod(m.w.current, j.Namespace, nt.Name)
+					if cp == nil {
+						if o, ok, _ := m.w.Inc.Ctx.Inf.Pod.Raw().GetByKey(j.Namespace + "/" + nt.Name); ok {
+							cp = o.(*corev1.Pod)
+						}
+					}
+					if cp != nil {
+						cur, _ := m.w.API.peek(KPod)[key(j.Namespace, nt.Name)].(*corev1.Pod)
+						if cp.Status.Phase != corev1.PodSucceeded && cp.Status.Phase != corev1.PodFailed && (cur == nil || cur.ResourceVersion != cp.ResourceVersion) {
+							// the controller's Pod cache holds a version of the task that is older than the one the
+							// recorded terminal state came from (a live read, or a previous process)
+							sig += ":pod-cache-behind-status"
+						}
+					}
+				}
+				m.fail("C11", sig, "Job %s: task %s was recorded as %s/%s and is now recorded as %s (writer %s)", j.Name, nt.Name, ot.Status.State, ot.Status.Result, nt.Status.State, ev.Actor)
+			}
+		}
+	}
 	if ev.Actor == "user" {
 		jr.UserEdited = true
 		if old.Status.Condition.Finished != nil {
@@ -1673,6 +1770,9 @@ func (m *Monitors) Fixpoint() {
 						k := jc.Namespace + "/" + jc.Name
 						if fs, ok := m.freeSeq[jr.JCUID]; ok && m.queueSyncBehind[k] && m.queueSyncCursor[k] > fs {
 							suffix = ":store-notified-after-queue-sync"
+						}
+						if m.staleTombstone[jr.JCUID] {
+							suffix = ":after-stale-tombstone"
 						}
 					}
 				}
